@@ -179,6 +179,37 @@ func runC19(p *core.Prog, r *core.Report) {
 			}
 		}
 	}
+	// where size may be updated: in Write / WriteString of the writer, and in private helpers that only they call
+	// (`sum`). Any other function that adds to size — a ReadFrom that counts what was *read*, a reader wrapper — adds
+	// a number the wrapped writer never reported
+	{
+		cm := staticCalls(p)
+		allowed := map[*ssa.Function]bool{}
+		for _, nm := range []string{"Write", "WriteString"} {
+			if m := methods[nm]; m != nil {
+				allowed[sx.OrigFunc(m)] = true
+			}
+		}
+		var okFn func(f *ssa.Function, depth int) bool
+		okFn = func(f *ssa.Function, depth int) bool {
+			f = sx.OrigFunc(rootFn(f))
+			if allowed[f] {
+				return true
+			}
+			if depth > 3 || len(cm.callers[f]) == 0 || (f.Object() != nil && f.Object().Exported()) {
+				return false
+			}
+			for _, cs := range cm.callers[f] {
+				if !okFn(cs.Caller, depth+1) {
+					return false
+				}
+			}
+			return true
+		}
+		for f := range adders {
+			r.Check(okFn(f, 0), "C19-R1", "size is updated only on behalf of Write/WriteString ("+fnName(f)+")", p.FuncPos(f), "the function is Write/WriteString or a private helper only they call", fnName(f)+" adds to size but is not Write/WriteString (nor a private helper called only from them): what it adds is not a byte count reported by the wrapped writer's Write — Size() and the progress values drift from what was written")
+		}
+	}
 	isForward := func(c ssa.CallInstruction) bool {
 		cc := c.Common()
 		if !cc.IsInvoke() {
